@@ -25,6 +25,11 @@ RULE = ("per operation script (handshake of a scenario, boundary-size "
         "from two threads over socketpair(); oracle: abstract outcome (data "
         "delivered, negotiated view incl. secrets, resumed, exception class "
         "and alert) equals the baseline's; BufferedSocket / Defragmenter byte "
+        "Payloads are larger than BufferedSocket's read-ahead and than "
+        "one record; flights are also merged and re-split; "
+        "AsyncStateMachine variants make the server's reads write "
+        "(close_notify and KeyUpdate answers) through the constrained "
+        "socket.   "
         "conservation monitored. distinct_nontrivial = distinct (script, "
         "variant class) cells with at least one injected would-block or "
         "partial transfer, or a re-framing.")
